@@ -27,6 +27,10 @@ def run(model, tier="quick"):
     res.floor("dependency_writer_methods", n_writers, 6)
     res.floor("reset_events", res.units["reset_events"], 20)
     who_writes(model, res, "AaveV3Market", ["_supplies", "_borrows"] + caches, ["demeter/aave/market.py"])
+    from ..rules.cache import cache_escape_rule
+    ng, nsites = cache_escape_rule(model, res, "AaveV3Market", caches)
+    res.floor("memo_getters_handing_out_their_container", ng, 3)
+    res.floor("memo_hand_over_sites", nsites, 3)
     # the formulas of the views that are not risk figures (those are compared under C11 / C10)
     views = ["total_supply_value", "total_borrows_value", "supply_apy", "borrow_apy", "supplies_value", "borrows_value", "safe_div_zero",
              "rate_to_apy"]
